@@ -685,6 +685,7 @@ def coq_parse_cases(rp, cases, tier, own="true"):
     return bad
 
 
+ERR_CTOR = re.compile(r"(goerrors|errors)\.\w*(Error|NewError|WrapError)\w*\(|\.WithLocation\(|expectedError\(|errorAt\(")
 ZERO_LOC = re.compile(r"models\.Location\{\s*(Line:\s*0\s*,\s*Column:\s*0\s*)?\}")
 
 
@@ -704,7 +705,9 @@ def scan_error_sites():
                 func, method = m.group(2), bool(m.group(1)) and "*Parser" in m.group(1)
             code = line.split("//")[0]
             total_cur += code.count("currentLocation()")
-            if ZERO_LOC.search(code):
+            # only a zero Location handed to an error constructor locates an error at 0:0 (a comparison with the zero
+            # value, or a zero Location used for something else, is not an error site)
+            if ZERO_LOC.search(code) and ERR_CTOR.search(code):
                 sites.append({"file": fn, "line": i, "func": func, "grammar": method and func[:1].islower() and func != "currentLocation"})
     return sites, total_cur
 
